@@ -142,13 +142,13 @@ func instrIndex(in ssa.Instruction) int {
 func Dominates(a, b ssa.Instruction) bool {
 	if a.Parent() != b.Parent() {
 		// b inside a transparent helper: a must dominate (or be) its call site
-		if s := siteOf(b.Parent()); s != nil && EnclosingTop(b.Parent()) == b.Parent() {
+		if s := siteOf(b.Parent()); s != nil && rawTop(b.Parent()) == b.Parent() {
 			if a == ssa.Instruction(s) || Dominates(a, s) {
 				return true
 			}
 		}
 		// a inside a transparent helper: a must be executed on every path through the helper, and the site dominate b
-		if s := siteOf(a.Parent()); s != nil && EnclosingTop(a.Parent()) == a.Parent() {
+		if s := siteOf(a.Parent()); s != nil && rawTop(a.Parent()) == a.Parent() {
 			h := a.Parent()
 			all := true
 			for _, blk := range h.Blocks {
@@ -209,7 +209,7 @@ func Guards(in ssa.Instruction) []Guard {
 	var out []Guard
 	blk := in.Block()
 	fn := blk.Parent()
-	if s := siteOf(fn); s != nil && EnclosingTop(fn) == fn {
+	if s := siteOf(fn); s != nil && rawTop(fn) == fn {
 		out = append(out, Guards(s)...)
 	}
 	for _, b := range fn.Blocks {
@@ -326,7 +326,7 @@ func canReach(fn *ssa.Function, from ssa.Instruction, stop instrPred, atEnd func
 		return false, nil
 	}
 	entry := fn.Blocks[0]
-	if EnclosingTop(fn) == fn {
+	if rawTop(fn) == fn {
 		fn = ownerOf(fn) // a transparent helper's returns resume in its caller
 	}
 	type item struct {
@@ -380,7 +380,7 @@ func canReach(fn *ssa.Function, from ssa.Instruction, stop instrPred, atEnd func
 		}
 		// a return of a transparent helper resumes after its call site
 		if f := it.b.Parent(); f != fn && len(it.b.Succs) == 0 {
-			if s := siteOf(f); s != nil && EnclosingTop(f) == f {
+			if s := siteOf(f); s != nil && rawTop(f) == f {
 				if _, isRet := it.b.Instrs[len(it.b.Instrs)-1].(*ssa.Return); isRet {
 					work = append(work, item{s.Block(), instrIndex(s) + 1, trail})
 				}
@@ -883,7 +883,7 @@ func (li *LockInfo) Held(in ssa.Instruction) LockSet {
 	}
 	// an instruction of a transparent helper: the helper starts with the locks held at its call site
 	if f := in.Parent(); f != nil && f != li.fn {
-		if s := siteOf(f); s != nil && EnclosingTop(f) == f {
+		if s := siteOf(f); s != nil && rawTop(f) == f {
 			entry := LockSet{}
 			for k, v := range li.Held(s) {
 				entry[k] = v
@@ -1017,12 +1017,27 @@ func OnceBodies(fn *ssa.Function) []OnceBody {
 	return out
 }
 
-// EnclosingTop returns the outermost named function containing fn.
-func EnclosingTop(fn *ssa.Function) *ssa.Function {
+// rawTop returns the outermost named function containing fn (closures resolved).
+func rawTop(fn *ssa.Function) *ssa.Function {
 	for fn.Parent() != nil {
 		fn = fn.Parent()
 	}
 	return fn
+}
+
+// EnclosingTop returns the top-level function fn's code belongs to: closures are
+// resolved to their function, transparent helpers to the function they were
+// extracted from.
+func EnclosingTop(fn *ssa.Function) *ssa.Function {
+	top := rawTop(fn)
+	for i := 0; i < 8; i++ {
+		s := transparentSite[top]
+		if s == nil {
+			break
+		}
+		top = rawTop(s.Parent())
+	}
+	return top
 }
 
 // ------------------------------------------------ path-pruned reachability
@@ -1172,7 +1187,7 @@ func PrunedCanReach(fn *ssa.Function, from ssa.Instruction, assumes []Assume, ta
 		return false, nil
 	}
 	entry := fn.Blocks[0]
-	if EnclosingTop(fn) == fn {
+	if rawTop(fn) == fn {
 		fn = ownerOf(fn) // a transparent helper's returns resume in its caller
 	}
 	type item struct {
@@ -1292,7 +1307,7 @@ func PrunedCanReach(fn *ssa.Function, from ssa.Instruction, assumes []Assume, ta
 			continue
 		}
 		if f := it.b.Parent(); f != fn && len(it.b.Succs) == 0 {
-			if s := siteOf(f); s != nil && EnclosingTop(f) == f {
+			if s := siteOf(f); s != nil && rawTop(f) == f {
 				if ret, isRet := it.b.Instrs[len(it.b.Instrs)-1].(*ssa.Return); isRet {
 					// remember what this path returns: conditions on the call's results are decided from it
 					npr := map[*ssa.Call][]ssa.Value{}
